@@ -133,6 +133,9 @@ fn unlisted<'a>(prop: &str, o: &'a Outcome, known: &KnownFile, hits: &mut BTreeM
 // ------------------------------------------------------------------ watchdog (hang => exit 2, never a violation)
 
 static CASE_STARTED_MS: [std::sync::atomic::AtomicU64; 64] = [const { std::sync::atomic::AtomicU64::new(0) }; 64];
+/// the case in flight per slot, as serialised JSON (engine, property, case), so that a hang can be reported with the input
+/// that caused it; written only when the slot's case changes, read only by the watchdog
+static CASE_IN_FLIGHT: [std::sync::Mutex<Option<(String, String, Vec<u8>)>>; 64] = [const { std::sync::Mutex::new(None) }; 64];
 
 fn now_ms() -> u64 {
     static T0: std::sync::OnceLock<Instant> = std::sync::OnceLock::new();
@@ -151,7 +154,24 @@ pub fn start_watchdog() {
                 let t = slot.load(std::sync::atomic::Ordering::Relaxed);
                 if t != 0 && now.saturating_sub(t) > limit_ms {
                     eprintln!("watchdog: a single case has been running for more than {} s; inconclusive", limit_ms / 1000);
-                    println!("INCONCLUSIVE: watchdog fired (a case did not terminate)");
+                    let slot_ix = CASE_STARTED_MS.iter().position(|s| std::ptr::eq(s, slot)).unwrap_or(0);
+                    let mut where_ = String::new();
+                    if let Ok(g) = CASE_IN_FLIGHT[slot_ix].try_lock() {
+                        if let Some((prop, engine, bytes)) = g.as_ref() {
+                            let dir = format!("{}/replays", std::env::var("VERIF_OUT").unwrap_or_else(|_| ".".into()));
+                            let _ = std::fs::create_dir_all(&dir);
+                            let mut h = crate::hist::Fnv::new();
+                            h.bytes(bytes);
+                            let path = format!("{dir}/{prop}-stuck-{:016x}.json", h.0);
+                            let hex: String = bytes.iter().map(|b| format!("{b:02x}")).collect();
+                            let doc = serde_json::json!({"property": prop, "engine": engine, "stuck_input_hex": hex,
+                                "note": "the case decoded from these bytes did not return within the watchdog limit; `cbv decode <property> <this file>` prints it"});
+                            if std::fs::write(&path, serde_json::to_string_pretty(&doc).unwrap()).is_ok() {
+                                where_ = format!(" property={prop} stuck_input={path}");
+                            }
+                        }
+                    }
+                    println!("INCONCLUSIVE: watchdog fired (a case did not terminate){where_}");
                     std::process::exit(2);
                 }
             }
@@ -161,6 +181,23 @@ pub fn start_watchdog() {
 
 pub fn case_begin(slot: usize) {
     CASE_STARTED_MS[slot % 64].store(now_ms(), std::sync::atomic::Ordering::Relaxed);
+}
+
+pub fn case_begin_with(slot: usize, prop: &str, engine: &str, bytes: &[u8]) {
+    if let Ok(mut g) = CASE_IN_FLIGHT[slot % 64].lock() {
+        match g.as_mut() {
+            Some((p, e, b)) => {
+                if p != prop || e != engine {
+                    *p = prop.to_string();
+                    *e = engine.to_string();
+                }
+                b.clear();
+                b.extend_from_slice(bytes);
+            }
+            None => *g = Some((prop.to_string(), engine.to_string(), bytes.to_vec())),
+        }
+    }
+    case_begin(slot);
 }
 
 pub fn case_end(slot: usize) {
@@ -198,7 +235,7 @@ pub fn run_shard<E: Engine>(
     let prop = cfg.prop;
     let result = runner.run(&strat, |bytes| {
         let case = eng.decode(&bytes);
-        case_begin(shard);
+        case_begin_with(shard, prop, eng.name(), &bytes);
         let o = eng.eval(&case);
         case_end(shard);
         let mut st = stats.borrow_mut();
